@@ -510,6 +510,12 @@ def disconnectTx (pol : Policy) (c : Chain) (s : Pool) (t : TxAbs) : Pool :=
 
 def markStale (s : Pool) : Pool := { s with pool := s.pool.map (fun e => { e with fresh := false }) }
 
+/-- ghost: pooled transactions that spend an input of a block being connected lose their `fresh` flag before
+the block's transactions are handled (every one of them is removed while they are handled) -/
+def staleSpenders (b : Block) (s : Pool) : Pool :=
+  { s with pool := s.pool.map (fun e =>
+      if e.tx.ins.any (fun x => b.txs.any (fun T => decide (x ∈ T.ins))) then { e with fresh := false } else e) }
+
 structure State where
   chain : Chain
   pool : Pool
@@ -559,7 +565,7 @@ def step (pol : Policy) (st : State) : Op → State × Result
   | .connect b prio =>
     if !blockTxsValid st.chain.utxo b.txs then (st, .badBlock) else
     let c := st.chain.connect b
-    let s0 := if b.mtp < st.chain.mtp then markStale st.pool else st.pool
+    let s0 := staleSpenders b (if b.mtp < st.chain.mtp then markStale st.pool else st.pool)
     (⟨c, b.txs.foldl (connectTx pol c prio) s0⟩, .none)
   | .disconnect =>
     match st.chain.disconnect with
